@@ -10,7 +10,7 @@ import time
 
 from .probe import ROOT, TARGET
 
-REPO = "/repo"
+REPO = os.environ.get("VERIF_SCRATCH_REPO") or "/repo"
 
 
 def _run(cmd, cwd):
@@ -29,12 +29,22 @@ def build(verbose=False) -> bool:
     with open(lock_path, "w") as lf:
         fcntl.flock(lf, fcntl.LOCK_EX)
         t0 = time.time()
-        hl = os.path.join(ROOT, "harness", "Cargo.lock")
+        hdir = os.path.join(ROOT, "harness")
+        if REPO != "/repo":   # scratch evaluation: a copy of the harness whose path dependencies point at the scratch tree
+            hdir = os.path.join(TARGET, "harness-src")
+            shutil.rmtree(hdir, ignore_errors=True)
+            shutil.copytree(os.path.join(ROOT, "harness"), hdir, ignore=shutil.ignore_patterns("target", "Cargo.lock"))
+            ct = os.path.join(hdir, "Cargo.toml")
+            with open(ct) as f:
+                txt = f.read().replace('"/repo/', '"' + REPO.rstrip("/") + "/")
+            with open(ct, "w") as f:
+                f.write(txt)
+        hl = os.path.join(hdir, "Cargo.lock")
         rl = os.path.join(REPO, "Cargo.lock")
         if not os.path.exists(hl) or os.path.getmtime(hl) < os.path.getmtime(rl):
             shutil.copyfile(rl, hl)
         rc, out = _run(["cargo", "build", "--release", "--offline", "--target-dir", TARGET],
-                       os.path.join(ROOT, "harness"))
+                       hdir)
         if rc != 0:
             sys.stderr.write(out[-4000:])
             sys.stderr.write("\nHARNESS BUILD FAILED (inconclusive, not a violation)\n")
